@@ -272,6 +272,7 @@ def run(chk: core.Check):
         for s in stray:
             chk.add(core.Violation("trace-stray", {"m": "syntax-trace", **s}, f"{s['text']!r}: {s['stray']}"))
     rej = trace_validate(chk, lines)
+    core.canary(chk, lines, trace_validate, what="Trace_Syntax", skip=set(rej))
     chk.traces_accepted += len(lines) - len(rej)
     chk.evaluations += len(lines)
     for i in rej[:25]:
